@@ -224,6 +224,11 @@ func runC09(env *Env, tier string) {
 	if ch.Chance("chunk", 1, 3) {
 		c.ChunkSize = 1 + ch.Choose("chunksize", 3)
 	}
+	if c.BeginString >= "FIX.4.4" && ch.Chance("nextexpectedoption", 1, 5) {
+		// rarely used option with states of its own (a recovery nobody asked for): tag 789 in both Logons
+		c.Extra = map[string]string{"EnableNextExpectedMsgSeqNum": "Y"}
+		env.Stat("probe_next_expected_option")
+	}
 	if ch.Chance("textprobe", 1, 4) {
 		c09TextProbe(env)
 		if env.Failed() {
